@@ -6,6 +6,6 @@ CONSTANTS
   KeepMax = TRUE
 VIEW View
 CONSTRAINT Bound
-INVARIANTS Sound Complete RestartNoRegress MemAboveW EmitStale
+INVARIANTS Sound Complete RestartNoRegress PersistDurable MemAboveW EmitStale
 PROPERTY Monotone
 CHECK_DEADLOCK FALSE
